@@ -195,16 +195,8 @@ def mfront_generate(c, files, outdir):
     inner = "mount -t tmpfs tmpfs /dev/shm && exec " + " ".join(shlex.quote(x) for x in cmd)
     rc, out, err = c.run(["unshare", "-m", "sh", "-c", inner], cwd=outdir, timeout=300)
     if rc != 0 and ("unshare" in err or "mount" in err or "Operation not permitted" in err):
-        sem = "/dev/shm/sem.mfront-%d" % os.getuid()
-        saved = open(sem, "rb").read() if os.path.exists(sem) else None
-        try:
-            rc, out, err = c.run(cmd, cwd=outdir, timeout=300)
-        finally:
-            if saved is not None:
-                with open(sem, "wb") as f:
-                    f.write(saved)
-            elif os.path.exists(sem):
-                os.unlink(sem)
+        # no private namespace available: plain run (vlib.run); the shared semaphore file is never rewritten
+        rc, out, err = c.run(cmd, cwd=outdir, timeout=300)
     if rc != 0:
         raise vlib.BuildError("mfront failed on %s:\n%s" % (files, (out + err)[-3000:]))
 
